@@ -80,8 +80,8 @@ Rows == {
   U("liquidity.DepositAndFarm", "cswap"),
   \* ---------------- auctionsV2 ----------------
   \* a market bid on a Dutch auction converts the debt paid into collateral at the auction price: it values the debt asset
-  \* (as coded the handler reads the debt asset's TWA without looking at `found` or `IsPriceActive`: ip = {})
-  R("auctionsV2.MsgPlaceMarketBid",   "harbor", "bid", "none", "other", FALSE, FALSE, {"out"}, FALSE, FALSE, "none", N, FALSE, TRUE),
+  \* (the handler refuses when that record is missing or inactive since the repair faaa56e; before, it read the TWA without looking)
+  R("auctionsV2.MsgPlaceMarketBid",   "harbor", "bid", "none", "other", FALSE, FALSE, {"out"}, FALSE, FALSE, "none", {"out"}, FALSE, TRUE),
   R("auctionsV2.MsgDepositLimitBid",  "none", "limitbid", "signer", "enlarge", FALSE, FALSE, N, FALSE, FALSE, "none", N, FALSE, FALSE),
   R("auctionsV2.MsgCancelLimitBid",   "none", "limitbid", "signer", "close",   FALSE, FALSE, N, FALSE, FALSE, "none", N, FALSE, FALSE),
   R("auctionsV2.MsgWithdrawLimitBid", "none", "limitbid", "signer", "reduce",  FALSE, FALSE, N, FALSE, FALSE, "none", N, FALSE, FALSE),
